@@ -32,17 +32,17 @@ import (
 	"golang.org/x/tools/go/packages"
 )
 
-const maxTable = 16
+const maxTable = 64
 
 type tableInfo struct {
 	lit     *ast.CompositeLit
 	n       int
 	elemT   types.Type
-	st      *types.Struct           // non-nil for struct entries
-	entries []map[string]ast.Expr   // struct entries: field name -> expression (as written)
-	plain   []ast.Expr              // non-struct entries
-	defStmt ast.Stmt                // the statement defining T (nil for a literal ranged over directly)
-	obj     types.Object            // T
+	st      *types.Struct         // non-nil for struct entries
+	entries []map[string]ast.Expr // struct entries: field name -> expression (as written)
+	plain   []ast.Expr            // non-struct entries
+	defStmt ast.Stmt              // the statement defining T (nil for a literal ranged over directly)
+	obj     types.Object          // T
 }
 
 // tableLit decodes a composite literal as a table: array or slice without keys, entries that are struct literals
@@ -210,10 +210,19 @@ func (ff *funcFacts) stable(e ast.Expr) bool {
 	switch x := e.(type) {
 	case *ast.BasicLit:
 		return true
+	case *ast.UnaryExpr:
+		// the address of a local variable is the same whenever it is taken
+		if id, isID := ast.Unparen(x.X).(*ast.Ident); isID && x.Op == token.AND {
+			if v, isVar := ff.info.Uses[id].(*types.Var); isVar && ff.declared[v] && !v.IsField() {
+				return true
+			}
+		}
 	case *ast.Ident:
 		switch o := ff.info.Uses[x].(type) {
 		case *types.Const, *types.Nil:
 			return true
+		case *types.Func:
+			return true // a declared function
 		case *types.Var:
 			return ff.declared[o] && ff.assigns[o] == 1 && !ff.addrOf[o] && !o.IsField()
 		}
@@ -248,6 +257,20 @@ func findTableStep(pkgs []*packages.Package, gaveUp map[string]bool, seq *int) (
 				if st != nil {
 					return st, nil
 				}
+				st, err = ptrAliasStep(p, f, filename, fd, gaveUp)
+				if err != nil {
+					return nil, err
+				}
+				if st != nil {
+					return st, nil
+				}
+				st, err = sroaStep(p, f, filename, fd, gaveUp, seq)
+				if err != nil {
+					return nil, err
+				}
+				if st != nil {
+					return st, nil
+				}
 			}
 		}
 	}
@@ -258,6 +281,350 @@ func hasTableLoops(pkgs []*packages.Package) bool {
 	seq := 0
 	st, _ := findTableStep(pkgs, map[string]bool{}, &seq)
 	return st != nil
+}
+
+// sroaStep: a local variable of an anonymous (or function-local) struct type that is only ever used field by field
+// (`var t struct{A, B T}; t.A.Mul(…)`) is a group of independent variables; it is replaced by one variable per field.
+func sroaStep(p *packages.Package, file *ast.File, filename string, fd *ast.FuncDecl, gaveUp map[string]bool, seq *int) (*tableStep, error) {
+	info := p.TypesInfo
+	fset := p.Fset
+	key := FuncKey(p.PkgPath, fd)
+	type cand struct {
+		stmt ast.Stmt
+		name *ast.Ident
+		lit  *ast.CompositeLit // t := T{f: v, …}; nil for var t T
+	}
+	var cands []cand
+	ast.Inspect(fd.Body, func(n ast.Node) bool {
+		switch x := n.(type) {
+		case *ast.DeclStmt:
+			if gd, isGD := x.Decl.(*ast.GenDecl); isGD && gd.Tok == token.VAR && len(gd.Specs) == 1 {
+				if vs := gd.Specs[0].(*ast.ValueSpec); len(vs.Names) == 1 && len(vs.Values) == 0 && vs.Type != nil {
+					cands = append(cands, cand{x, vs.Names[0], nil})
+				}
+			}
+		case *ast.AssignStmt:
+			if x.Tok == token.DEFINE && len(x.Lhs) == 1 && len(x.Rhs) == 1 {
+				if id, isID := x.Lhs[0].(*ast.Ident); isID {
+					if lit, isLit := x.Rhs[0].(*ast.CompositeLit); isLit {
+						cands = append(cands, cand{x, id, lit})
+					}
+				}
+			}
+		}
+		return true
+	})
+	sc := &spliceCtx{fset: fset, callerPkg: p.Types, callerInfo: info, callerFile: file}
+	for ci, cd := range cands {
+		site := fmt.Sprintf("%s>struct-local#%d", key, ci)
+		if gaveUp[site] {
+			continue
+		}
+		ds := cd.stmt
+		obj := info.Defs[cd.name]
+		if obj == nil || cd.name.Name == "_" {
+			continue
+		}
+		if _, inBlock := enclosingList(fd, ds); !inBlock {
+			continue
+		}
+		st, isStruct := obj.Type().Underlying().(*types.Struct)
+		if !isStruct {
+			continue
+		}
+		// only grouping types: written in place, declared inside this function, or a package-level struct type that
+		// did not exist when the tables were frozen
+		if nt, isNamed := obj.Type().(*types.Named); isNamed {
+			tn := nt.Obj()
+			local := tn.Pos() >= fd.Body.Pos() && tn.Pos() <= fd.Body.End()
+			newType := tn.Pkg() == p.Types && len(invKeys) > 0 && !invKeys["type:"+p.PkgPath+"."+tn.Name()]
+			if !(local && nt.NumMethods() == 0) && !newType {
+				continue
+			}
+		}
+		// a literal must be keyed field by field
+		if cd.lit != nil {
+			okLit := true
+			for _, e := range cd.lit.Elts {
+				kv, isKV := e.(*ast.KeyValueExpr)
+				if !isKV {
+					okLit = false
+					break
+				}
+				if _, isID := kv.Key.(*ast.Ident); !isID {
+					okLit = false
+					break
+				}
+			}
+			if !okLit {
+				continue
+			}
+		}
+		okFields := st.NumFields() > 0
+		for i := 0; i < st.NumFields(); i++ {
+			if st.Field(i).Embedded() || st.Field(i).Name() == "_" {
+				okFields = false
+			}
+		}
+		if !okFields {
+			continue
+		}
+		// every use is t.f for a direct field f
+		parent := map[ast.Node]ast.Node{}
+		var stack []ast.Node
+		ast.Inspect(fd.Body, func(n ast.Node) bool {
+			if n == nil {
+				stack = stack[:len(stack)-1]
+				return true
+			}
+			if len(stack) > 0 {
+				parent[n] = stack[len(stack)-1]
+			}
+			stack = append(stack, n)
+			return true
+		})
+		var edits []textEdit
+		fieldwise := true
+		uses := 0
+		*seq++
+		prefix := fmt.Sprintf("_sroa%d_", *seq)
+		ast.Inspect(fd.Body, func(n ast.Node) bool {
+			id, ok := n.(*ast.Ident)
+			if !ok || info.Uses[id] != obj {
+				return true
+			}
+			uses++
+			par := parent[id]
+			for {
+				if pe, isParen := par.(*ast.ParenExpr); isParen {
+					par = parent[pe]
+					continue
+				}
+				break
+			}
+			se, isSel := par.(*ast.SelectorExpr)
+			if !isSel || ast.Unparen(se.X) != ast.Expr(id) {
+				fieldwise = false
+				return true
+			}
+			sel := info.Selections[se]
+			if sel == nil || sel.Kind() != types.FieldVal || len(sel.Index()) != 1 {
+				fieldwise = false
+				return true
+			}
+			edits = append(edits, textEdit{fset.Position(se.Pos()).Offset, fset.Position(se.End()).Offset, prefix + se.Sel.Name})
+			return true
+		})
+		if !fieldwise || uses == 0 {
+			continue
+		}
+		src, err := os.ReadFile(filename)
+		if err != nil {
+			return nil, err
+		}
+		// one variable per field, initialised in the order the literal evaluates its values (then the zero ones)
+		var decls []string
+		okT := true
+		declare := func(f *types.Var, val ast.Expr) {
+			ts, err := sc.typeString(f.Type())
+			if err != nil {
+				okT = false
+				return
+			}
+			n := prefix + f.Name()
+			if val != nil {
+				decls = append(decls, fmt.Sprintf("var %s %s = %s\n_ = %s", n, ts, srcOf(fset, src, val), n))
+			} else {
+				decls = append(decls, fmt.Sprintf("var %s %s\n_ = %s", n, ts, n))
+			}
+		}
+		done := map[string]bool{}
+		if cd.lit != nil {
+			for _, e := range cd.lit.Elts {
+				kv := e.(*ast.KeyValueExpr)
+				name := kv.Key.(*ast.Ident).Name
+				for i := 0; i < st.NumFields(); i++ {
+					if st.Field(i).Name() == name {
+						declare(st.Field(i), kv.Value)
+						done[name] = true
+					}
+				}
+			}
+		}
+		for i := 0; i < st.NumFields(); i++ {
+			if !done[st.Field(i).Name()] {
+				declare(st.Field(i), nil)
+			}
+		}
+		if !okT {
+			gaveUp[site] = true
+			continue
+		}
+		edits = append(edits, textEdit{fset.Position(ds.Pos()).Offset, fset.Position(ds.End()).Offset, strings.Join(decls, "\n")})
+		return &tableStep{filename, []byte(applyEdits(src, 0, edits)), site, "fields of a local struct split"}, nil
+	}
+	return nil, nil
+}
+
+// ptrAliasStep: `p := &x` for a local variable x, with p never reassigned and only used as the base of field
+// selections (p.f), is another name for x: the binding is removed and p.f becomes x.f. (This is what a pointer
+// receiver looks like after its method has been inlined.)
+func ptrAliasStep(p *packages.Package, file *ast.File, filename string, fd *ast.FuncDecl, gaveUp map[string]bool) (*tableStep, error) {
+	info := p.TypesInfo
+	fset := p.Fset
+	key := FuncKey(p.PkgPath, fd)
+	parent := map[ast.Node]ast.Node{}
+	var stack []ast.Node
+	ast.Inspect(fd.Body, func(n ast.Node) bool {
+		if n == nil {
+			stack = stack[:len(stack)-1]
+			return true
+		}
+		if len(stack) > 0 {
+			parent[n] = stack[len(stack)-1]
+		}
+		stack = append(stack, n)
+		return true
+	})
+	var ff *funcFacts
+	ord := 0
+	var step *tableStep
+	var stepErr error
+	ast.Inspect(fd.Body, func(n ast.Node) bool {
+		as, ok := n.(*ast.AssignStmt)
+		if !ok || step != nil || stepErr != nil || as.Tok != token.DEFINE || len(as.Lhs) != len(as.Rhs) {
+			return true
+		}
+		for li := range as.Lhs {
+			pid, isID := as.Lhs[li].(*ast.Ident)
+			ue, isU := as.Rhs[li].(*ast.UnaryExpr)
+			if !isID || !isU || ue.Op != token.AND || pid.Name == "_" {
+				continue
+			}
+			xid, isX := ast.Unparen(ue.X).(*ast.Ident)
+			if !isX {
+				continue
+			}
+			ord++
+			site := fmt.Sprintf("%s>ptr-alias#%d", key, ord)
+			if gaveUp[site] {
+				continue
+			}
+			pobj, _ := info.Defs[pid].(*types.Var)
+			xobj, _ := info.Uses[xid].(*types.Var)
+			if pobj == nil || xobj == nil || xobj.IsField() || xobj.Pkg() == nil || xobj.Parent() == xobj.Pkg().Scope() {
+				continue
+			}
+			if _, isStruct := xobj.Type().Underlying().(*types.Struct); !isStruct {
+				continue
+			}
+			if ff == nil {
+				ff = factsOf(info, fd)
+			}
+			if ff.assigns[pobj] != 1 || ff.addrOf[pobj] {
+				continue
+			}
+			var edits []textEdit
+			good := true
+			ast.Inspect(fd.Body, func(m ast.Node) bool {
+				u, isU := m.(*ast.Ident)
+				if !isU || info.Uses[u] != types.Object(pobj) {
+					return true
+				}
+				par := parent[u]
+				// `_ = p` markers go away with the binding
+				if a2, isAs := par.(*ast.AssignStmt); isAs && len(a2.Lhs) == 1 && len(a2.Rhs) == 1 && a2.Rhs[0] == ast.Expr(u) {
+					if b, isB := a2.Lhs[0].(*ast.Ident); isB && b.Name == "_" {
+						edits = append(edits, textEdit{fset.Position(a2.Pos()).Offset, fset.Position(a2.End()).Offset, ""})
+						return true
+					}
+				}
+				se, isSel := par.(*ast.SelectorExpr)
+				if !isSel || se.X != ast.Expr(u) {
+					good = false
+					return true
+				}
+				if sel := info.Selections[se]; sel == nil || sel.Kind() != types.FieldVal {
+					good = false
+					return true
+				}
+				// x must mean the same variable here
+				if u.Name != xid.Name {
+					inner := p.Types.Scope().Innermost(u.Pos())
+					if inner == nil {
+						good = false
+						return true
+					}
+					if _, o := inner.LookupParent(xid.Name, u.Pos()); o != types.Object(xobj) {
+						good = false
+						return true
+					}
+					edits = append(edits, textEdit{fset.Position(u.Pos()).Offset, fset.Position(u.End()).Offset, xid.Name})
+				} else {
+					// same name: the use must not sit under yet another declaration of that name
+					inner := p.Types.Scope().Innermost(u.Pos())
+					if inner == nil {
+						good = false
+						return true
+					}
+					if _, o := inner.LookupParent(u.Name, u.Pos()); o != types.Object(pobj) {
+						good = false
+					}
+				}
+				return true
+			})
+			if !good {
+				gaveUp[site] = true
+				continue
+			}
+			src, err := os.ReadFile(filename)
+			if err != nil {
+				stepErr = err
+				return false
+			}
+			// drop the pair from the definition
+			if len(as.Lhs) == 1 {
+				edits = append(edits, textEdit{fset.Position(as.Pos()).Offset, fset.Position(as.End()).Offset, ""})
+			} else {
+				var ls, rs []string
+				for k := range as.Lhs {
+					if k != li {
+						ls = append(ls, srcOf(fset, src, as.Lhs[k]))
+						rs = append(rs, srcOf(fset, src, as.Rhs[k]))
+					}
+				}
+				// the remaining names may all exist already in this scope only if they were all new: keep :=
+				edits = append(edits, textEdit{fset.Position(as.Pos()).Offset, fset.Position(as.End()).Offset, strings.Join(ls, ", ") + " := " + strings.Join(rs, ", ")})
+			}
+			step = &tableStep{filename, []byte(applyEdits(src, 0, edits)), site, "pointer to a local struct replaced by the struct"}
+			return false
+		}
+		return true
+	})
+	return step, stepErr
+}
+
+// enclosingList: the statement list that directly holds stmt.
+func enclosingList(fd *ast.FuncDecl, stmt ast.Stmt) (ast.Node, bool) {
+	var holder ast.Node
+	ast.Inspect(fd.Body, func(n ast.Node) bool {
+		var list []ast.Stmt
+		switch b := n.(type) {
+		case *ast.BlockStmt:
+			list = b.List
+		case *ast.CaseClause:
+			list = b.Body
+		case *ast.CommClause:
+			list = b.Body
+		}
+		for _, s := range list {
+			if s == stmt {
+				holder = n
+			}
+		}
+		return true
+	})
+	return holder, holder != nil
 }
 
 func srcOf(fset *token.FileSet, src []byte, n ast.Node) string {
@@ -402,10 +769,24 @@ func tableStepIn(p *packages.Package, file *ast.File, filename string, fd *ast.F
 		}
 		// every use of T: range operand, len/cap argument, or T[k] with k the key of an enclosing range over T
 		usesOK := true
+		otherUses := 0 // uses of T apart from this loop's range operand, T[key] inside this loop, and `_ = T`
 		ast.Inspect(fd.Body, func(n ast.Node) bool {
 			uid, ok := n.(*ast.Ident)
 			if !ok || info.Uses[uid] != T {
 				return true
+			}
+			inThis := uid.Pos() >= rs.Body.Pos() && uid.End() <= rs.Body.End()
+			blank := false
+			if as, isAs := parent[uid].(*ast.AssignStmt); isAs && len(as.Lhs) == 1 {
+				if b, isB := as.Lhs[0].(*ast.Ident); isB && b.Name == "_" {
+					blank = true
+				}
+			}
+			if !(parent[uid] == ast.Node(rs) && rs.X == ast.Expr(uid)) && !inThis && !blank {
+				otherUses++
+			}
+			if _, isIdx := parent[uid].(*ast.IndexExpr); inThis && !isIdx {
+				otherUses++ // len(T) and the like inside the body keep T alive
 			}
 			switch par := parent[uid].(type) {
 			case *ast.RangeStmt:
@@ -455,9 +836,11 @@ func tableStepIn(p *packages.Package, file *ast.File, filename string, fd *ast.F
 					return true
 				}
 				switch x := m.(type) {
-				case *ast.FuncLit, *ast.LabeledStmt:
+				case *ast.LabeledStmt:
 					bodyOK = false
 					return false
+				case *ast.FuncLit:
+					return false // its own break/continue/return are its own
 				case *ast.ForStmt:
 					walk(x.Body, true, true)
 					return false
@@ -498,7 +881,20 @@ func tableStepIn(p *packages.Package, file *ast.File, filename string, fd *ast.F
 		if vid, ok := rs.Value.(*ast.Ident); ok && vid.Name != "_" {
 			valObj = info.Defs[vid]
 		}
-		if (keyObj != nil && (ff.addrOf[keyObj] || ff.assigns[keyObj] != 2)) || (valObj != nil && ff.addrOf[valObj]) {
+		captured := false
+		ast.Inspect(rs.Body, func(n ast.Node) bool {
+			if fl, isFL := n.(*ast.FuncLit); isFL {
+				ast.Inspect(fl, func(m ast.Node) bool {
+					if id, isID := m.(*ast.Ident); isID && info.Uses[id] != nil && (info.Uses[id] == keyObj || info.Uses[id] == valObj) {
+						captured = true // one variable per loop before Go 1.22: a closure that outlives the iteration sees later values
+					}
+					return true
+				})
+				return false
+			}
+			return true
+		})
+		if captured || (keyObj != nil && (ff.addrOf[keyObj] || ff.assigns[keyObj] != 2)) || (valObj != nil && ff.addrOf[valObj]) {
 			gaveUp[site] = true
 			continue
 		}
@@ -644,7 +1040,12 @@ func tableStepIn(p *packages.Package, file *ast.File, filename string, fd *ast.F
 					break
 				}
 				name := fmt.Sprintf("_tbl%d_%d", *seq, hi)
-				decls = append(decls, fmt.Sprintf("var %s %s = %s", name, ts, srcOf(fset, src, e)))
+				if _, isFL := ast.Unparen(e).(*ast.FuncLit); isFL {
+					// a closure variable in the form the closure inliner knows
+					decls = append(decls, fmt.Sprintf("%s := %s\n_ = %s", name, srcOf(fset, src, e), name))
+				} else {
+					decls = append(decls, fmt.Sprintf("var %s %s = %s\n_ = %s", name, ts, srcOf(fset, src, e), name))
+				}
 				edits = append(edits, textEdit{fset.Position(e.Pos()).Offset, fset.Position(e.End()).Offset, name})
 			}
 			if !okT {
@@ -687,6 +1088,9 @@ func tableStepIn(p *packages.Package, file *ast.File, filename string, fd *ast.F
 					e = ti.plain[k]
 				}
 				text := "(" + srcOf(fset, src, e) + ")"
+				if _, isID := ast.Unparen(e).(*ast.Ident); isID {
+					text = srcOf(fset, src, e)
+				}
 				if tv, isTV := info.Types[e]; isTV && tv.Value != nil {
 					// a constant keeps the type of the slot it initialised
 					slot := ti.elemT
@@ -712,10 +1116,47 @@ func tableStepIn(p *packages.Package, file *ast.File, filename string, fd *ast.F
 			gaveUp[site] = true
 			continue
 		}
-		fmt.Fprintf(&sb, "_ = %s\n}", T.Name())
+		// a table nothing else uses, all of whose entries are effect-free, goes away with its last loop
+		dropDef := otherUses == 0
+		if dropDef {
+			if ti.st != nil {
+				for _, m := range ti.entries {
+					for _, e := range m {
+						if !ff.stable(e) {
+							dropDef = false
+						}
+					}
+				}
+			} else {
+				for _, e := range ti.plain {
+					if !ff.stable(e) {
+						dropDef = false
+					}
+				}
+			}
+		}
+		if dropDef {
+			sb.WriteString("}")
+		} else {
+			fmt.Fprintf(&sb, "_ = %s\n}", T.Name())
+		}
 		from, to := fset.Position(rs.Pos()).Offset, fset.Position(rs.End()).Offset
-		out := string(src[:from]) + sb.String() + string(src[to:])
-		return &tableStep{filename, []byte(out), site, "unroll"}, nil
+		edits := []textEdit{{from, to, sb.String()}}
+		if dropDef {
+			// earlier `_ = T` markers go as well
+			ast.Inspect(fd.Body, func(n ast.Node) bool {
+				if as, isAs := n.(*ast.AssignStmt); isAs && len(as.Lhs) == 1 && len(as.Rhs) == 1 && !(as.Pos() >= rs.Pos() && as.End() <= rs.End()) {
+					if b, isB := as.Lhs[0].(*ast.Ident); isB && b.Name == "_" {
+						if r, isR := as.Rhs[0].(*ast.Ident); isR && info.Uses[r] == T {
+							edits = append(edits, textEdit{fset.Position(as.Pos()).Offset, fset.Position(as.End()).Offset, ""})
+						}
+					}
+				}
+				return true
+			})
+			edits = append(edits, textEdit{fset.Position(ti.defStmt.Pos()).Offset, fset.Position(ti.defStmt.End()).Offset, ""})
+		}
+		return &tableStep{filename, []byte(applyEdits(src, 0, edits)), site, "unroll"}, nil
 	}
 	return nil, nil
 }
